@@ -99,8 +99,8 @@ impl Prop for C05 {
         match (tier, build) {
             (Tier::Quick, "fast") => 40_000,
             (Tier::Quick, _) => 15_000,
-            (Tier::Thorough, "fast") => 250_000,
-            (Tier::Thorough, _) => 80_000,
+            (Tier::Thorough, "fast") => 200_000,
+            (Tier::Thorough, _) => 50_000,
         }
     }
     fn rule(&self) -> &'static str {
